@@ -1,8 +1,176 @@
-/- driver component stub: replaced by the real component when its model exists -/
-import TakVerif.Driver.Ser
+/-
+  Driver component `server` (C17).
+
+    server trace <cap> <mode> <event>…       → ok fair=<0|1> pending=<n> <id>=<resp> …   (answered, delivery order)
+                                               | invalid:<reason>@<event index>
+    server judge <cap> <mode> <event>… | <id>=<resp>… | <idle 0|1>
+                                             → ok | violation <key> id=<id> [other=<id>] expected=<resp>
+    server bytes <hex32>…                    → ok <hex bytes|-> <hex32>…      (encode, then decode)
+    server unbytes <hex bytes|->             → ok <hex32>… | refused           (decode only)
+
+  events:  A:<id>:<t.t.t|->   E:<id>   T:<id>   R:<n>   D
+  mode fp  : the row model is `Tak.Server.fingerprint`, responses are written `<value>/<i.i.i|->`
+  mode cls : the row model maps a position to `c<k>/c<k>`, k = smallest arrived id with these tokens (used when
+             the implementation serves a real network and the harness has classified each
+             response by the local evaluation it equals)
+-/
+import TakVerif.Model.Server
 
 namespace Tak.Driver.Server
 
-def handle : List String → Option String := fun _ => none
+open Tak.Server
+
+def parseDots (s : String) : Option (List Nat) :=
+  if s = "-" then some [] else (s.splitOn ".").mapM String.toNat?
+
+def showDots (l : List Nat) : String :=
+  if l.isEmpty then "-" else ".".intercalate (l.map toString)
+
+def parseEvent (s : String) : Option Event :=
+  match s.splitOn ":" with
+  | ["A", id, toks] => do
+    let id ← id.toNat?
+    let toks ← parseDots toks
+    pure (.arrive id toks)
+  | ["E", id] => id.toNat?.map .enter
+  | ["T", id] => id.toNat?.map .take
+  | ["R", n] => n.toNat?.map .run
+  | ["D"] => some .done
+  | _ => none
+
+def showFp (r : List Nat × Nat) : String := s!"{r.2}/{showDots r.1}"
+
+def fpModel (toks : List Nat) : String := showFp (fingerprint toks)
+
+def arrivalsOf : List Event → List (Req (List Nat))
+  | [] => []
+  | .arrive id toks :: es => ⟨id, toks⟩ :: arrivalsOf es
+  | _ :: es => arrivalsOf es
+
+def servedOf : List Event → List Nat
+  | [] => []
+  | .take id :: es => id :: servedOf es
+  | _ :: es => servedOf es
+
+/-- `c<smallest id among the arrivals carrying the same tokens>` -/
+def clsModel (arrivals : List (Req (List Nat))) (toks : List Nat) : String :=
+  match (arrivals.filter fun r => r.position == toks).map (·.id) with
+  | [] => "c?/c?"
+  | i :: is => s!"c{is.foldl min i}/c{is.foldl min i}"
+
+def modelOf (mode : String) (es : List Event) : Option (List Nat → String) :=
+  if mode = "fp" then some fpModel
+  else if mode = "cls" then some (clsModel (arrivalsOf es))
+  else none
+
+def parseDelivery (s : String) : Option (Nat × String) :=
+  match s.splitOn "=" with
+  | [id, r] => id.toNat?.map fun i => (i, r)
+  | _ => none
+
+def splitBar (l : List String) : List (List String) :=
+  l.foldr (fun t acc =>
+    match acc with
+    | [] => [[]]  -- unreachable: acc starts non-empty
+    | cur :: rest => if t = "|" then [] :: cur :: rest else (t :: cur) :: rest) [[]]
+
+def handleTrace (cap : Nat) (mode : String) (evs : List String) : Option String := do
+  let es ← evs.mapM parseEvent
+  let f ← modelOf mode es
+  match checkTrace cap f init 0 es with
+  | .error (i, msg) => pure s!"invalid:{msg}@{i}"
+  | .ok s =>
+    let fair := if traceFair cap f init es then 1 else 0
+    let ans := s.answered.map fun (i, r) => s!"{i}={r}"
+    pure (" ".intercalate (["ok", s!"fair={fair}", s!"pending={s.pending.length}"] ++ ans))
+
+/-- responses are written `c₁/c₂/…`: some component of `resp` differs from `own`'s and equals
+    `other`'s -/
+def borrowedStr (own other resp : String) : Bool :=
+  let zs := (resp.splitOn "/").zip ((own.splitOn "/").zip (other.splitOn "/"))
+  zs.any fun (r, o, x) => r != o && r == x
+
+def expectedOf (f : List Nat → String) (arr : List (Req (List Nat))) (id : Nat) : String :=
+  match positionOf arr id with
+  | some p => f p
+  | none => "?"
+
+def handleJudge (cap : Nat) (mode : String) (rest : List String) : Option String := do
+  let _ := cap
+  match splitBar rest with
+  | [evs, dels, [idle]] =>
+    let es ← evs.mapM parseEvent
+    let f ← modelOf mode es
+    let ds ← dels.mapM parseDelivery
+    let idle ← (if idle = "1" then some true else if idle = "0" then some false else none)
+    let arr := arrivalsOf es
+    match judge f borrowedStr arr (servedOf es) ds idle with
+    | .ok => pure "ok"
+    | .wrongRecipient id o =>
+      pure s!"violation wrong-recipient id={id} other={o} expected={expectedOf f arr id}"
+    | .notLocalEqual id => pure s!"violation not-local-equal id={id} expected={expectedOf f arr id}"
+    | .answeredTwice id => pure s!"violation answered-twice id={id}"
+    | .unanswered id => pure s!"violation unanswered id={id} expected={expectedOf f arr id}"
+    | .unknownId id => pure s!"violation unknown-id id={id}"
+  | _ => none
+
+/-! hex -/
+
+def hexDigit (c : Char) : Option Nat :=
+  if '0' ≤ c ∧ c ≤ '9' then some (c.toNat - '0'.toNat)
+  else if 'a' ≤ c ∧ c ≤ 'f' then some (c.toNat - 'a'.toNat + 10)
+  else if 'A' ≤ c ∧ c ≤ 'F' then some (c.toNat - 'A'.toNat + 10)
+  else none
+
+def parseHex (s : String) : Option Nat :=
+  if s.isEmpty then none
+  else s.toList.foldlM (fun acc c => (hexDigit c).map fun d => acc * 16 + d) 0
+
+def hexChar (n : Nat) : Char :=
+  if n < 10 then Char.ofNat ('0'.toNat + n) else Char.ofNat ('a'.toNat + (n - 10))
+
+def showHex (digits n : Nat) : String :=
+  String.ofList ((List.range digits).reverse.map fun i => hexChar (n / 16 ^ i % 16))
+
+def parseWord (s : String) : Option (BitVec 32) :=
+  if s.length = 8 then (parseHex s).map (BitVec.ofNat 32) else none
+
+def parseBytes : List Char → Option (List (BitVec 8))
+  | [] => some []
+  | a :: b :: rest => do
+    let x ← hexDigit a
+    let y ← hexDigit b
+    let tl ← parseBytes rest
+    pure (BitVec.ofNat 8 (x * 16 + y) :: tl)
+  | _ => none
+
+def showBytes (bs : List (BitVec 8)) : String :=
+  if bs.isEmpty then "-" else String.join (bs.map fun b => showHex 2 b.toNat)
+
+def showWords (ws : List (BitVec 32)) : List String := ws.map fun w => showHex 8 w.toNat
+
+def handleBytes (args : List String) : Option String := do
+  let ws ← args.mapM parseWord
+  let bs := encodeLE ws
+  match decodeLE bs with
+  | some back => pure (" ".intercalate (["ok", showBytes bs] ++ showWords back))
+  | none => pure "refused"
+
+def handleUnbytes (arg : String) : Option String := do
+  let bs ← (if arg = "-" then some [] else parseBytes arg.toList)
+  match decodeLE bs with
+  | some ws => pure (" ".intercalate ("ok" :: showWords ws))
+  | none => pure "refused"
+
+def handle : List String → Option String
+  | "trace" :: cap :: mode :: evs => do
+    let cap ← cap.toNat?
+    handleTrace cap mode evs
+  | "judge" :: cap :: mode :: rest => do
+    let cap ← cap.toNat?
+    handleJudge cap mode rest
+  | "bytes" :: args => handleBytes args
+  | ["unbytes", arg] => handleUnbytes arg
+  | _ => none
 
 end Tak.Driver.Server
